@@ -539,4 +539,29 @@ func TestVerifScan(t *testing.T) {
 			rep.Samples = append(rep.Samples, map[string]any{"scenario": sc.name, "rows": len(rws), "splits": len(splits), "reversed": sc.reversed, "partial": sc.partial})
 		}
 	}
+
+	// ---- reversed scans over a region boundary with rows as close below the boundary as a key can get: the boundary's
+	// predecessor followed by 1..7 bytes 0xff (and more bytes) - where the client starts the next region decides whether it
+	// sees them
+	ff := func(n int, tail ...byte) []byte {
+		k := []byte("baq")
+		for i := 0; i < n; i++ {
+			k = append(k, 0xff)
+		}
+		return append(k, tail...)
+	}
+	var close []scanRow
+	for _, key := range [][]byte{[]byte("b"), []byte("baq"), ff(1), ff(3, 1), ff(6, 0xfe), ff(7), ff(7, 1), ff(7, 0xfe, 2), []byte("bar"), []byte("bar\x00"), []byte("foo")} {
+		close = append(close, scanRow{key, 1 + len(key)%2})
+	}
+	for k := 0; k < 6; k++ {
+		sc := scanScenario{rows: close, splits: [][]byte{[]byte("bar")}, reversed: true, start: []byte("zzz"), partial: k%2 == 1,
+			randCut: rand.New(rand.NewSource(seed*31 + int64(k)))}
+		if k >= 4 {
+			sc.splits = [][]byte{[]byte("baq"), []byte("bar")}
+		}
+		sc.name = fmt.Sprintf("reversed-rows-just-below-a-region-boundary/%d", k)
+		do(sc)
+		rep.Distinct++
+	}
 }
